@@ -105,6 +105,14 @@ fn random_program(r: &mut Rng, out: &mut Out) -> String {
         out.stat("gen_triangular");
         return gen::triangular(r);
     }
+    if r.chance(1, 12) {
+        out.stat("gen_scan_shift");
+        return gen::scan_shift(r);
+    }
+    if r.chance(1, 12) {
+        out.stat("gen_preloop_reuse");
+        return gen::preloop_reuse(r);
+    }
     match r.below(10) {
         0..=3 => {
             out.stat("gen_token");
@@ -685,10 +693,27 @@ fn bcwf_case<C: CellType>(w: u32, code: &str, out: &mut Out) {
     }
 }
 
+const BCWF_FIXED: &[&str] = &[
+    ",->,[-.<[->>+>+<<<]>>>[-<<<+>>>]<<>.<]",
+    ",+>,->,[-<<[->>>+>+<<<<]>>>>[-<<<<+>>>>]<<<[->>+>+<<<]>>>[-<<<+>>>]<.<]>.",
+];
+
 /// The bytecode handed to the unsafe back ends must pass the (verified) contract checker.
 pub fn bcwf(r: &mut Rng, count: usize, out: &mut Out) {
-    for _ in 0..count {
-        let code = random_program(r, out);
+    // fixed programs first: values created before a top-level loop and reused inside it in a different order
+    for code in BCWF_FIXED {
+        for &w in &[8u32, 32] {
+            out.stat("fixed");
+            with_width!(w, bcwf_case, w, code, out);
+        }
+    }
+    for i in 0..count {
+        let code = if i % 5 == 4 {
+            out.stat("gen_preloop_reuse");
+            gen::preloop_reuse(r)
+        } else {
+            random_program(r, out)
+        };
         let w = *r.pick(&WIDTHS);
         with_width!(w, bcwf_case, w, &code, out);
     }
@@ -698,8 +723,8 @@ pub fn bcwf(r: &mut Rng, count: usize, out: &mut Out) {
 
 /// Phase 1 of the divergence check: candidate programs, to be certified by the Lean model.
 pub fn divgen(r: &mut Rng, count: usize, out: &mut Out) {
-    for _ in 0..count {
-        let code = gen::maybe_divergent(r);
+    for i in 0..count {
+        let code = if i % 4 == 3 { gen::scan_shift(r) } else { gen::maybe_divergent(r) };
         let mut env = random_env(r);
         if env.input.is_none() {
             env.input = Some(vec![]);
@@ -2076,10 +2101,11 @@ pub fn optrun(r: &mut Rng, count: usize, out: &mut Out) {
     let prev = std::panic::take_hook();
     std::panic::set_hook(Box::new(|_| {}));
     for i in 0..count {
-        let code = match i % 5 {
+        let code = match i % 6 {
             0 => gen::structured(r),
             1 => gen::token(r),
             2 => gen::triangular(r),
+            3 => gen::scan_shift(r),
             _ => random_program(r, out),
         };
         let w = *r.pick(&WIDTHS);
